@@ -120,6 +120,23 @@ def main(p):
                         bad.append(f"read_dedisp_block(start={start}, nsamps={nsamps}, delays={dl.tolist()}) = {np.asarray(blk.data).tolist()}, x[c,t+delay_c] = {want.tolist()}")
                 except Exception as e:  # noqa: BLE001
                     bad.append(f"raised {type(e).__name__}: {e}")
+    elif p["kind"] == "delays":
+        from sigpyproc.params import DM_CONSTANT_LK, compute_dmdelays
+        f = np.array(p["freqs"], dtype=np.float64)
+        ref, dm, ts = p["ref"], p["dm"], p["tsamp"]
+        d = np.atleast_1d(compute_dmdelays(f, dm, ts, ref)).astype(np.int64)
+        dn = np.atleast_1d(compute_dmdelays(f, -dm, ts, ref)).astype(np.int64)
+        exact = DM_CONSTANT_LK * dm * (f ** -2.0 - ref ** -2.0) / ts
+        near = np.abs(np.abs(exact - np.floor(exact)) - 0.5) < 1e-3     # too close to a rounding boundary to judge in float32
+        if int(np.atleast_1d(compute_dmdelays(np.array([ref]), dm, ts, ref))[0]) != 0:
+            bad.append("delay at the reference frequency is not zero")
+        if np.any((d != -dn) & ~near):
+            bad.append(f"delays({dm}) = {d.tolist()} but delays({-dm}) = {dn.tolist()} (not antisymmetric)")
+        if np.any((np.abs(d - exact) > 0.5 + 1e-3) & ~near):
+            bad.append(f"delays {d.tolist()} are not the formula {exact.tolist()} rounded to the nearest sample")
+        o = np.argsort(f)
+        if dm >= 0 and np.any(np.diff(d[o]) > 0):
+            bad.append(f"delays {d[o].tolist()} increase with frequency")
     for b in bad:
         print("MISMATCH:", b[:700])
     return 1 if bad else 0
